@@ -130,6 +130,8 @@ def judge(ck, sp, x):
         it = sp["interp"]
         h, order, gfun = it["h"], it["order"], it["g"]
         Mk = deriv_bound(gfun, x, h, order)
+        for galt in it.get("g_alt", ()):          # other admissible tabulations of the same map
+            Mk = np.maximum(Mk, deriv_bound(galt, x, h, order))
         if order == 2:
             e_T = 1.1 * h * h / 8.0 * Mk
             e_Tp = 0.0 * q
@@ -140,7 +142,7 @@ def judge(ck, sp, x):
             namp = 3.0
         # interpolation passes the rounding noise of the tabulated nodes through
         if it["space"] == "log" or sp.get("out") == "log":      # table holds log-quantiles
-            cond_T = cond / np.maximum(np.abs(q), 1e-300)
+            cond_T = cond / np.maximum(np.abs(q - sp.get("loc", 0.0)), 1e-300)
         else:
             cond_T = cond / it["post_scale"]
         e_T = e_T + namp * cond_T
@@ -153,7 +155,7 @@ def judge(ck, sp, x):
         if sp.get("interp"):
             it = sp["interp"]
             if it["space"] == "log":
-                tol_i = np.abs(q - sp.get("loc_abs", 0.0)) * np.expm1(np.minimum(e_T, 50.0))
+                tol_i = (np.abs(q) + abs(sp.get("loc", 0.0))) * np.expm1(np.minimum(e_T, 50.0))
             else:
                 tol_i = e_T * it["post_scale"]
         else:
@@ -189,7 +191,10 @@ def judge(ck, sp, x):
         cb = sp["inv_cond"](x, y)                 # conditioning bound of the round trip
         okp = (np.abs(x) <= 5.0) & (cb <= 1e-9)
         ck.hit("inverse_points", int(okp.sum()))
-        badi = okp & ~(np.abs(xb - x) <= 1e-8 * (1 + np.abs(x)))
+        tolx = 1e-8 * (1 + np.abs(x))
+        if sp.get("inv_slope") is not None:       # interpolated both ways: 2 interpolation errors / slope
+            tolx = tolx + 2.5 * e_T / np.maximum(sp["inv_slope"](x), 1e-300)
+        badi = okp & ~(np.abs(xb - x) <= tolx)
         if np.any(badi):
             j = int(np.argmax(np.where(badi, np.abs(xb - x), 0)))
             ck.violation(f"{key}:inverse", f"{key}: inverse(transform(x)) != x", x=float(x[j]),
@@ -203,7 +208,7 @@ def judge(ck, sp, x):
                 dtrue = dtrue / q
                 tolj = 1e-7 * np.abs(dtrue) + e_Tp + np.abs(dtrue) * 0 + 1e-300
             elif sp.get("interp") and sp["interp"]["space"] == "log":
-                qq = np.abs(q - sp.get("loc_abs", 0.0))
+                qq = np.abs(q) + abs(sp.get("loc", 0.0))
                 tolj = np.abs(dtrue) * (1e-7 + np.expm1(np.minimum(e_T, 50.0))) + qq * e_Tp
             elif sp.get("interp"):
                 tolj = 1e-7 * np.abs(dtrue) + e_Tp * sp["interp"]["post_scale"]
@@ -361,20 +366,25 @@ def b_re_invgamma(S, rng):
     sp = dict(key="re:invgamma_prior", fn=fn, dist=stats.invgamma(a, loc=loc, scale=scale), mode="viacdf",
               abs_scale=abs(loc), default=False,
               desc=dict(t="re:invgamma", via=via, a=a, scale=np.ravel(scale)[:2].tolist(), loc=loc, step=step, arr=bool(n)))
-    if loc == 0.0:
-        sp["interp"] = dict(h=step, order=2, space="log", g=ig_g(a))
-    else:
+    # the table may hold log(quantile - loc) (then loc is added afterwards) or, for loc > 0,
+    # log(quantile): the interpolation bound is the larger of the two, relative to |q| + |loc|
+    g0 = ig_g(a)
+    sp["interp"] = dict(h=step, order=2, space="log", g=g0)
+    sp["loc"] = loc
+    galts = [g0]
+    if loc > 0:
         d = stats.invgamma(a, loc=loc, scale=scale)
-        sp["interp"] = dict(h=step, order=2, space="log",
-                            g=lambda x: np.log(np.maximum(true_map(d, x), 1e-300)))
-        if loc < 0:
-            sp["keysuffix"] = ":loc<0"
+        g1 = lambda x: np.log(true_map(d, x))
+        sp["interp"]["g_alt"] = (g1,)
+        galts.append(g1)
+    if loc < 0:
+        sp["keysuffix"] = ":loc<0"
     if n is None and loc >= 0:
         inv = sd.invgamma_invprior(a, scale, loc, step)
         sp["inv"] = lambda y: np.asarray(inv(jnp.asarray(y)))
-        # both directions interpolate the same table: exact up to rounding / slope of the table
-        gp = lambda x: np.abs(sp["interp"]["g"](x + 1e-4) - sp["interp"]["g"](x - 1e-4)) / 2e-4
-        sp["inv_cond"] = lambda x, y: 64 * EPS * (1 + np.abs(np.log(np.maximum(y, 1e-300)))) / np.maximum(gp(x), 1e-300)
+        slope = lambda x: np.min(np.stack([np.abs(g(x + 1e-4) - g(x - 1e-4)) / 2e-4 for g in galts]), axis=0)
+        sp["inv_slope"] = slope
+        sp["inv_cond"] = lambda x, y: 64 * EPS * (1 + np.abs(np.log(np.maximum(y, 1e-300)))) / np.maximum(slope(x), 1e-300)
     return sp
 
 
